@@ -90,7 +90,17 @@ func Yield(site string) {
 	<-w.wake
 }
 
-func hook(op string, addr unsafe.Pointer) { Yield(op) }
+// AtomicFilter, when set, decides whether a shimmed atomic access of the running worker is a yield point
+// (monitors whose oracle is exact only at a coarser granularity enable the fine-grained points for the phases
+// their oracle can account for).
+var AtomicFilter func() bool
+
+func hook(op string, addr unsafe.Pointer) {
+	if f := AtomicFilter; f != nil && !f() {
+		return
+	}
+	Yield(op)
+}
 
 type Options struct {
 	Adversarial int // steps decided by the chooser (default 2000)
